@@ -14,6 +14,21 @@ def build(tier):
     return groups, meta
 
 
+def replay(g, o, assigns, path):
+    """Skeleton counterexamples are paths, not inputs: the replay searches the structured family of real inputs/histories of
+    replay_src/solver_replay.cpp (mode 'safety') on the REAL solvers."""
+    from vlib import replay as RP
+    r = RP.run_native(PROP, RP.src("solver_replay.cpp"), args=["safety"], timeout=900)
+    if not r.get("reproduced"):
+        r2 = RP.run_native(PROP, RP.src("C13_restart_oob_replay.cpp"), timeout=900, name="replay2")
+        if r2.get("reproduced"):
+            return r2
+        r3 = RP.run_native(PROP, RP.src("solver_replay.cpp"), args=["counts"], timeout=900, name="replay3")
+        if r3.get("reproduced"):
+            return r3
+    return r
+
+
 MANIFEST = {
     "category": "proof",
     "text": 'Unbounded proof for the integer/pointer facts: every index expression in the extracted skeletons (Ritz arrays, matrix coefficients, column/block selectors) is inside the Eigen shape established by init(); the operator is always handed valid, distinct, length-n buffers; restart size in [nev, ncv-1]; operator applications are paid by an additive budget: <= 2 per added basis column, one factorization call per restart plus the first, <= maxit restarts (the closed form 2+2*ncv*(maxit+1) is that sum bounded term-wise).',
